@@ -36,6 +36,11 @@ DIR_SHAPES = {
     "relative-nested": lambda base, name: os.path.join("r1", "r2", name),
     "symlinked-parent": lambda base, name: os.path.join(base, "lnk", name),
     "pre-existing": lambda base, name: os.path.join(base, "pre_" + name),
+    # a symbolic link among the ancestors whose target lies at another depth of the tree (a lexical ../.. from the
+    # configured name and from the physical directory do not lead to the same place)
+    "symlinked-ancestor-deeper-target": lambda base, name: os.path.join(base, "lnk_deep", "sub", name),
+    "symlinked-ancestor-relative": lambda base, name: os.path.join("lnk_deep", name),
+    "directory-is-a-symlink": lambda base, name: os.path.join(base, "sl_" + name),
 }
 CACHE = ["none", "false", "true", 0, -1, 2]
 
@@ -55,6 +60,11 @@ def run_case(case):
         os.makedirs(os.path.join(base, "pre_int"))
         os.makedirs(os.path.join(base, "pre_dat"))
         os.symlink(os.path.join(base, "real_parent"), os.path.join(base, "lnk"))
+        os.makedirs(os.path.join(base, "vol", "disk1", "proj", "sub"))
+        os.symlink(os.path.join(base, "vol", "disk1", "proj"), os.path.join(base, "lnk_deep"))
+        for nm in ("int", "dat"):
+            os.makedirs(os.path.join(base, "targets", "x", "y", nm))
+            os.symlink(os.path.join(base, "targets", "x", "y", nm), os.path.join(base, "sl_" + nm))
         cfg = {"internal_dir": DIR_SHAPES[case["ishape"]](base, "int"), "data_dir": DIR_SHAPES[case["dshape"]](base, "dat"),
                "cache_objects": case["cache"]}
         steps1 = [{"set_store": cfg}, {"keep": ["/a/b", "s0"]}, {"load": "/a/b"}, {"chdir": "elsewhere/deep"}, {"load": "/a/b"},
